@@ -144,6 +144,7 @@ class RecreateClasses(Contract):
     name = "Pyro5.serializers.SerializerBase.recreate_classes"
     props = ("C01", "C04")
     variants = ("set", "list", "tuple", "dict-tagged", "dict-plain", "other")
+    local_positions = {"result": 2}
     raises = {"builtins.Exception": "x_any"}
     raises_any_subclass = ("builtins.Exception",)
     no_join = True
@@ -213,16 +214,16 @@ class RecreateClasses(Contract):
                 ("... untouched", z3.BoolVal(not _comps(st) and not _calls(st, "dict_to_class")))]
 
     def loop_modifies(self, k, E, st, a):
-        r = st.env["result"]
+        r = E.local(st, "result")
         return [(r, "n"), (r, "keys"), (r, "vals")]
 
     def loop_inv(self, k, E, old, st, a):
-        r = st.env["result"]
+        r = E.local(st, "result")
         idx = st.ghost["idx%d" % k].e
         return [("index", z3.And(0 <= idx, idx <= n_items(LIT), st.get(r, "n").e == idx)),
-                ("entries so far", QInv(lambda s: s.get(s.env["result"], "n").e,
-                                        lambda s, j: z3.And(z3.Select(s.get(s.env["result"], "keys"), j) == key_at(LIT, j),
-                                                            z3.Select(s.get(s.env["result"], "vals"), j) == RC(val_at(LIT, j)))))]
+                ("entries so far", QInv(lambda s: s.get(E.local(s, "result"), "n").e,
+                                        lambda s, j: z3.And(z3.Select(s.get(E.local(s, "result"), "keys"), j) == key_at(LIT, j),
+                                                            z3.Select(s.get(E.local(s, "result"), "vals"), j) == RC(val_at(LIT, j)))))]
 
 
 # ----------------------------------------------------------------------------------------------------------------------
